@@ -571,7 +571,7 @@ End Fixed2.
 
 (* ---------- proxyConn.handle: scheme fix-up, upgrade detection, stack, re-add ---------- *)
 Definition fixed_handle_order : list str :=
-  [b "fixRequestScheme"; b "upgradeType"; b "modifyRequest"; b "readdUpgrade"; b "roundTrip"].
+  [b "fixRequestScheme"; b "mitmHttps"; b "upgradeType"; b "modifyRequest"; b "readdUpgrade"; b "roundTrip"].
 
 Lemma fix_scheme_hdr a r : q_hdr (fix_request_scheme a r) = q_hdr r.
 Proof.
@@ -579,9 +579,14 @@ Proof.
   repeat match goal with |- context [if ?c then _ else _] => destruct c end; reflexivity.
 Qed.
 
+(* the request as the modifier stack sees it: scheme settled, header untouched *)
+Definition prep (r : mreq) : mreq := mitm_https (fix_request_scheme proxy_allow_http r).
+Lemma prep_hdr r : q_hdr (prep r) = q_hdr r.
+Proof. unfold prep, mitm_https. destruct (q_tls _); [cbn [q_hdr set_scheme]|]; apply fix_scheme_hdr. Qed.
+
 Definition handle_explicit_cfg (cfg : pcfg) (tag : str) (r : mreq) : outcome :=
   let up := upgrade_type (q_hdr r) in
-  match modify_request_cfg cfg tag (fix_request_scheme proxy_allow_http r) with
+  match modify_request_cfg cfg tag (prep r) with
   | Refused s => Refused s
   | Passed r' => Passed (if is_empty up then r'
                          else set_hdr r' (h_set k_upgrade up (h_set k_connection k_upgrade (q_hdr r'))))
@@ -589,6 +594,8 @@ Definition handle_explicit_cfg (cfg : pcfg) (tag : str) (r : mreq) : outcome :=
 Definition handle_explicit (tag : str) (r : mreq) : outcome := handle_explicit_cfg no_cfg tag r.
 
 Lemma hs_fix cfg tag r up : handle_step cfg tag (b "fixRequestScheme") (r, up) = (Passed (fix_request_scheme proxy_allow_http r), up).
+Proof. reflexivity. Qed.
+Lemma hs_mitm cfg tag r up : handle_step cfg tag (b "mitmHttps") (r, up) = (Passed (mitm_https r), up).
 Proof. reflexivity. Qed.
 Lemma hs_up cfg tag r up : handle_step cfg tag (b "upgradeType") (r, up) = (Passed r, upgrade_type (q_hdr r)).
 Proof. reflexivity. Qed.
@@ -603,8 +610,9 @@ Proof. reflexivity. Qed.
 Lemma handle_request_cfg_explicit cfg tag r : handle_order = fixed_handle_order -> handle_request_cfg cfg tag r = handle_explicit_cfg cfg tag r.
 Proof.
   intro Ho. unfold handle_request_cfg, handle_explicit_cfg. rewrite Ho. unfold fixed_handle_order.
-  cbn [run_handle]. rewrite hs_fix. cbv beta iota. rewrite hs_up. cbv beta iota. rewrite fix_scheme_hdr.
-  rewrite hs_mod. destruct (modify_request_cfg cfg tag (fix_request_scheme proxy_allow_http r)) as [s|r']; [reflexivity|].
+  cbn [run_handle]. rewrite hs_fix. cbv beta iota. rewrite hs_mitm. cbv beta iota. rewrite hs_up. cbv beta iota.
+  fold (prep r). rewrite prep_hdr.
+  rewrite hs_mod. destruct (modify_request_cfg cfg tag (prep r)) as [s|r']; [reflexivity|].
   cbv beta iota. rewrite hs_readd. cbv beta iota. rewrite hs_rt. cbv beta iota. reflexivity.
 Qed.
 
@@ -648,15 +656,15 @@ Section Fixed3.
      was requested, and then exactly as "Connection: Upgrade" + "Upgrade: <type>"; every other name is as the
      modifier stack left it *)
   Lemma upgrade_readded tag r r' : handle_request tag r = Passed r' ->
-    exists r1, modify_request tag (fix_request_scheme proxy_allow_http r) = Passed r1 /\
+    exists r1, modify_request tag (prep r) = Passed r1 /\
     let up := upgrade_type (q_hdr r) in
     (is_empty up = false -> raw_get k_connection (q_hdr r') = Some [k_upgrade] /\ raw_get k_upgrade (q_hdr r') = Some [up]) /\
     (is_empty up = true -> raw_get k_connection (q_hdr r') = None /\ raw_get k_upgrade (q_hdr r') = None) /\
     (forall k, k <> k_connection -> k <> k_upgrade -> raw_get k (q_hdr r') = raw_get k (q_hdr r1)).
   Proof.
     rewrite (handle_request_explicit tag r Horder). unfold handle_explicit, handle_explicit_cfg. cbn zeta.
-    fold (modify_request tag (fix_request_scheme proxy_allow_http r)).
-    destruct (modify_request tag (fix_request_scheme proxy_allow_http r)) as [s|r1] eqn:E; [discriminate|].
+    fold (modify_request tag (prep r)).
+    destruct (modify_request tag (prep r)) as [s|r1] eqn:E; [discriminate|].
     intro H. injection H as <-. exists r1. split; [reflexivity|].
     destruct (is_empty (upgrade_type (q_hdr r))) eqn:Eu.
     - split; [discriminate|]. split; [|reflexivity]. intros _.
